@@ -3,6 +3,7 @@ package c01
 
 import (
 	"verif/harness/internal/core"
+	"verif/harness/internal/golib"
 	"verif/harness/internal/pxy"
 )
 
@@ -26,5 +27,9 @@ func (P) Gen(r *core.Rand, tier string, emit func([]string)) {
 	pr := pxy.Profile{Rich: true, BigBodies: tier == "thorough"}
 	for i := 0; i < n; i++ {
 		emit(pxy.GenCase(r, pr))
+	}
+	// the chunked-reader model behind the body-framing theorems, against net/http's reader
+	for i := 0; i < n/10; i++ {
+		emit(golib.GenChunked(r, 20))
 	}
 }
